@@ -10,7 +10,7 @@ from .common import FnCtx, fnctx, sctx, is_method_call, self_attr_stores
 from . import c04, c05
 
 PROP = "C19"
-FLOORS = {"C19.R1": 12, "C19.R2": 9, "C19.R3": 5, "C19.R4": 2, "C19.R5": 2, "C19.R6": 5, "C19.R7": 20, "C19.R8": 100, "C19.R9": 6, "C19.R10": 20}
+FLOORS = {"C19.R1": 12, "C19.R2": 9, "C19.R3": 5, "C19.R4": 2, "C19.R5": 2, "C19.R6": 5, "C19.R7": 20, "C19.R8": 100, "C19.R9": 6, "C19.R10": 20, "C19.R11": 3}
 META = {
     "explanation": "Both evaluators are the same MadxEval class; only the three containers differ. The grammar constant is read from the "
                    "AST and parsed with lark (no code of /repo runs): every rule alias has a callback in MadxEval (also after the "
@@ -50,7 +50,46 @@ def _callbacks(repo):
     return c, out
 
 
+def _plain_names(col, rule="C19.R11"):
+    """The callbacks receive lark Tokens (a str subclass with its own repr).  Used as a container key on a *reference* container a Token
+    builds ItemRef(owner, Token): it prints as e[Token('NAME', 'q1')], is not equal to e['q1'] and cannot be re-evaluated -- the parsed
+    expression is then not linked to the locations it reads.  Every subscript of variables / elements uses the token's plain `.value`."""
+    repo = col.repo
+    n = 0
+    for meth in ("assign_var", "getitem", "getattr", "var"):
+        try:
+            sx = sctx(repo, "MadxEval", meth, public=True)
+        except Exception:
+            continue
+        toks = {t for t in sx.sym.params.values() if t[:1] == ("param",) and t[2] in ("name", "key")}
+        conts = (S.sattr("variables"), S.sattr("elements"))
+        bad, seen = [], 0
+        for ev in sx.events:
+            tms = [ev.term] if ev.kind == "call" else [x for x in (ev.value, ev.target) if x is not None]
+            for tm in tms:
+                for x in S.subterms(tm):
+                    if x[:1] == ("sub",) and (x[1] in conts or (x[1][:1] == ("sub",) and x[1][1] in conts)):
+                        seen += 1
+                        if x[2] in toks:
+                            bad.append(S.show(x)[:60])
+                    if S.is_call_of(x, ("glob", "getattr")) and len(x[2]) >= 2 and any(y in conts for y in S.subterms(x[2][0])):
+                        seen += 1
+                        if x[2][1] in toks:
+                            bad.append(S.show(x)[:60])
+                    if x[:1] == ("attr",) and x[2] != "value" and x[1][:1] == ("sub",) and x[1][1] in conts and False:
+                        pass
+        if not seen:
+            continue
+        n += 1
+        col.add(rule, f"MadxEval.{meth}#containers-indexed-by-plain-name", not bad, sx.loc(sx.fn),
+                "variables / elements are indexed with the token's plain string value", "; ".join(sorted(set(bad))))
+    if n < 3:
+        raise AnalysisError("MadxEval: the callbacks that index variables / elements were not recognised (cannot decide)")
+
+
 def check(col: Collector):
+    with col.rule():
+        _plain_names(col)
     repo = col.repo
     import lark
     m, text = _grammar_text(repo)
@@ -298,6 +337,8 @@ def check(col: Collector):
         c04._binary(sub, rule="C19.R8")
     with col.rule():
         c04._unary(sub, rule="C19.R8")
+    with col.rule():
+        c04._no_build_time_algebra(sub, rule="C19.R8")
     # element access `el->name` / variables are navigated with the name exactly as the grammar delivers it
     with col.rule():
         c04.navigation_rules(sub, rule="C19.R9")
